@@ -708,6 +708,48 @@ theorem C03_bad_reference_detected {F} (env : Env F) (strict : Bool) (hcfg : env
   ⟨hred, ⟨35, ds, rfl, by decide, by decide, by decide⟩, hb, fun l sk d rest hd =>
     ⟨sk, Or.inl rfl, by simpa using attr_ref_bad env strict a tg hty hder hcfg ds hne hds hhi hbad l sk after ha d rest hd⟩⟩
 
+/-- **undeclared enumeration item**: `.WORD.` for an ENUMERATION / BOOLEAN / LOGICAL attribute where `WORD` (either letter
+    case) is no item of the type: nothing is assigned, WARNING -/
+theorem C03_undeclared_enum_item_detected {F} (env : Env F) (strict : Bool) (hcfg : env.lex.criSkipsComments = true) (a : AttrD)
+    (ty : ElemTy) (hty : a.ty = .one ty) (het : EnumTy ty) (hder : a.derived = false) (hred : a.redefining = false)
+    (name : List Byte) (hne : name ≠ []) (hname : name.all pw = true)
+    (hfind : findName (enumKindOf ty).table (name.map toUpper) = none)
+    (before after : List Byte) (hb : Seps before) (ha : Seps after) :
+    ParamRd env strict { a := a, v := .one (.atom .unset), tok := 46 :: (name ++ [46]), before := before, after := after } .warning :=
+  ⟨hred, ⟨46, name ++ [46], rfl, by decide, by decide, by decide⟩, hb, fun l sk d rest hd =>
+    ⟨sk, Or.inl rfl, attr_enum_undeclared env strict a ty hty het hder hcfg name hne hname hfind l sk after ha d rest hd⟩⟩
+
+/-- **wrong literal kind for a STRING attribute**: a text that does not start with an apostrophe (a number, an enumeration
+    item, a reference, a keyword) and holds no `,` `)`: `SDAI_String::STEPread` reads nothing, WARNING, unset -/
+theorem C03_wrong_kind_for_string_detected {F} (env : Env F) (strict : Bool) (a : AttrD) (hty : a.ty = .one .string)
+    (hder : a.derived = false) (hred : a.redefining = false)
+    (j0 : Byte) (js : List Byte) (hj0s : isSpace j0 = false) (hj047 : j0 ≠ 47) (hj092 : j0 ≠ 92) (hj036 : j0 ≠ 36) (hj039 : j0 ≠ 39)
+    (hj : ∀ b ∈ j0 :: js, delimAt env.lex attrDelims b = false) (before : List Byte) (hb : Seps before) :
+    ParamRd env strict { a := a, v := .one (.atom .unset), tok := j0 :: js, before := before, after := [] } .warning :=
+  ⟨hred, ⟨j0, js, rfl, hj0s, hj047, hj092⟩, hb, fun l sk d rest hd =>
+    ⟨sk, Or.inl rfl, by simpa using attr_string_junk env strict a hty hder j0 js hj0s hj047 hj036 hj039 hj l sk d rest hd⟩⟩
+
+/-- **wrong literal kind for a REAL attribute**: a text that starts like no numeral (a string, an enumeration item, a
+    reference, a keyword not starting with `E`/`e`) and holds no `,` `)`: nothing is collected, WARNING, unset (whether
+    or not `ReadReal` itself reports) -/
+theorem C03_wrong_kind_for_real_detected {F} (env : Env F) (strict : Bool) (a : AttrD) (hty : a.ty = .one .real)
+    (hder : a.derived = false) (hred : a.redefining = false)
+    (j0 : Byte) (js : List Byte) (hj0s : isSpace j0 = false) (hj047 : j0 ≠ 47) (hj092 : j0 ≠ 92) (hj036 : j0 ≠ 36) (hnn : notNum j0)
+    (hj : ∀ b ∈ j0 :: js, delimAt env.lex attrDelims b = false) (before : List Byte) (hb : Seps before) :
+    ParamRd env strict { a := a, v := .one (.atom .unset), tok := j0 :: js, before := before, after := [] } .warning :=
+  ⟨hred, ⟨j0, js, rfl, hj0s, hj047, hj092⟩, hb, fun l sk d rest hd =>
+    ⟨sk, Or.inl rfl, by simpa using attr_real_junk env strict a hty hder j0 js hj0s hj047 hj036 hnn hj l sk d rest hd⟩⟩
+
+/-- **wrong literal kind for an ENUMERATION / BOOLEAN / LOGICAL attribute**: a text that starts with neither `.` nor a
+    letter (a number, a string, a reference, a binary) and holds no `,` `)`: WARNING, unset -/
+theorem C03_wrong_kind_for_enum_detected {F} (env : Env F) (strict : Bool) (a : AttrD) (ty : ElemTy) (hty : a.ty = .one ty)
+    (het : EnumTy ty) (hder : a.derived = false) (hred : a.redefining = false)
+    (j0 : Byte) (js : List Byte) (hj0s : isSpace j0 = false) (hj047 : j0 ≠ 47) (hj092 : j0 ≠ 92) (hj036 : j0 ≠ 36) (hj046 : j0 ≠ 46)
+    (hj0a : isAlpha j0 = false) (hj : ∀ b ∈ j0 :: js, delimAt env.lex attrDelims b = false) (before : List Byte) (hb : Seps before) :
+    ParamRd env strict { a := a, v := .one (.atom .unset), tok := j0 :: js, before := before, after := [] } .warning :=
+  ⟨hred, ⟨j0, js, rfl, hj0s, hj047, hj092⟩, hb, fun l sk d rest hd =>
+    ⟨sk, Or.inl rfl, by simpa using attr_enum_junk env strict a ty hty het hder j0 js hj0s hj047 hj036 hj046 hj0a hj l sk d rest hd⟩⟩
+
 /-! ### the hypotheses are satisfiable: a string where an INTEGER is required -/
 def exDict : Dict :=
   { entities := [{ name := "A", attrs := [{ name := "x", ty := .one .integer, optional := false }], ancestors := ["A"] }],
